@@ -87,7 +87,8 @@ def grid_shape(dim: int, n_min: int, n_max: int, max_cells: int | None = None, l
 # fields
 # ------------------------------------------------------------------------------------------------
 
-FIELD_KINDS = ["zero", "constant", "poly", "bumps", "spikes", "checker", "noise", "mixed", "boxnoise"]
+# "stream": a field of one strict sign everywhere (a free-stream dominated velocity component: constant + smaller fluctuation)
+FIELD_KINDS = ["zero", "constant", "poly", "bumps", "spikes", "checker", "noise", "mixed", "boxnoise", "stream"]
 
 
 def field_spec(kinds=None, max_mag_exp: int = 6, allow_zero: bool = True):
@@ -195,6 +196,9 @@ def build_field(spec: dict, shape, dtype=np.float64, margin: int = 0) -> np.ndar
             sl.append(slice(lo, hi))
         noise = add_noise()
         out[tuple(sl)] += (noise + np.sign(noise) * 0.25)[tuple(sl)]
+    elif kind == "stream":
+        c0 = spec["coefs"][0] if spec["coefs"][0] != 0 else 1.0
+        out += c0 * (1.0 + 0.45 * add_noise())
     elif kind == "mixed":
         out += add_poly() + add_bumps() + add_spikes() + 0.25 * add_noise()
     else:
